@@ -57,31 +57,26 @@ theorem api_ptr_has_err_path : ∀ e ∈ apiTable, e.ret = .ptr → e.hasErrPath
 def sridFromFirstList : List String :=
   ["GEOSBoundary_r", "GEOSBufferWithParams_r", "GEOSBufferWithStyle_r", "GEOSBuffer_r", "GEOSBuildArea_r",
    "GEOSClipByRect_r", "GEOSConcaveHullByLength_r", "GEOSConcaveHullOfPolygons_r", "GEOSConcaveHull_r",
-   "GEOSConvexHull_r", "GEOSCoverageUnion_r", "GEOSDelaunayTriangulation_r", "GEOSDensify_r",
-   "GEOSDifferencePrec_r", "GEOSDifference_r", "GEOSDisjointSubsetUnion_r", "GEOSEnvelope_r",
-   "GEOSGeom_extractUniquePoints_r", "GEOSGetCentroid_r",
-   "GEOSInterpolateNormalized_r", "GEOSInterpolate_r", "GEOSIntersectionPrec_r", "GEOSIntersection_r",
-   "GEOSLargestEmptyCircle_r", "GEOSLineMergeDirected_r", "GEOSLineMerge_r", "GEOSLineSubstring_r",
-   "GEOSMakeValidWithParams_r", "GEOSMakeValid_r", "GEOSMaximumInscribedCircle_r",
-   "GEOSMinimumBoundingCircle_r", "GEOSMinimumClearanceLine_r", "GEOSMinimumRotatedRectangle_r",
-   "GEOSMinimumWidth_r", "GEOSNode_r", "GEOSOffsetCurve_r", "GEOSPointOnSurface_r",
-   "GEOSPolygonHullSimplifyMode_r", "GEOSPolygonHullSimplify_r", "GEOSPolygonize_full_r",
-   "GEOSRemoveRepeatedPoints_r", "GEOSReverse_r", "GEOSSharedPaths_r", "GEOSSimplify_r",
-   "GEOSSingleSidedBuffer_r", "GEOSSnap_r", "GEOSSymDifferencePrec_r", "GEOSSymDifference_r",
-   "GEOSTopologyPreserveSimplify_r", "GEOSUnaryUnionPrec_r", "GEOSUnaryUnion_r", "GEOSUnionPrec_r",
-   "GEOSUnion_r", "GEOSVoronoiDiagram_r"]
+   "GEOSConstrainedDelaunayTriangulation_r", "GEOSConvexHull_r", "GEOSCoverageUnion_r", "GEOSDelaunayTriangulation_r",
+   "GEOSDensify_r", "GEOSDifferencePrec_r", "GEOSDifference_r", "GEOSDisjointSubsetUnion_r", "GEOSEnvelope_r",
+   "GEOSGeomGetEndPoint_r", "GEOSGeomGetPointN_r", "GEOSGeomGetStartPoint_r", "GEOSGeom_extractUniquePoints_r",
+   "GEOSGeom_setPrecision_r", "GEOSGetCentroid_r", "GEOSInterpolateNormalized_r", "GEOSInterpolate_r",
+   "GEOSIntersectionPrec_r", "GEOSIntersection_r", "GEOSLargestEmptyCircle_r", "GEOSLineMergeDirected_r",
+   "GEOSLineMerge_r", "GEOSLineSubstring_r", "GEOSMakeValidWithParams_r", "GEOSMakeValid_r",
+   "GEOSMaximumInscribedCircle_r", "GEOSMinimumBoundingCircle_r", "GEOSMinimumClearanceLine_r",
+   "GEOSMinimumRotatedRectangle_r", "GEOSMinimumWidth_r", "GEOSNode_r", "GEOSOffsetCurve_r", "GEOSPointOnSurface_r",
+   "GEOSPolygonHullSimplifyMode_r", "GEOSPolygonHullSimplify_r", "GEOSPolygonize_full_r", "GEOSRemoveRepeatedPoints_r",
+   "GEOSReverse_r", "GEOSSharedPaths_r", "GEOSSimplify_r", "GEOSSingleSidedBuffer_r", "GEOSSnap_r",
+   "GEOSSymDifferencePrec_r", "GEOSSymDifference_r", "GEOSTopologyPreserveSimplify_r", "GEOSUnaryUnionPrec_r",
+   "GEOSUnaryUnion_r", "GEOSUnionPrec_r", "GEOSUnion_r", "GEOSVoronoiDiagram_r"]
 
 /-- constructive operations whose body has **no** `setSRID(first->getSRID())`.  The first group keeps the
-SRID by construction (the result is a copy of, or is built by the factory of, the argument); whether the
-SRID really arrives is observed at run time by the `api-seq` stream for every constructive call.  The
-entries after the comment are the ones where it was observed *not* to arrive on the unchanged tree
-(findings, see `checks/C12.py`). -/
+SRID by construction (the result is a copy of the argument, or is built by the argument's factory); whether the SRID
+really arrives is observed at run time by the `api-seq` stream for every constructive call.  (Five functions that were
+listed here as findings — `GEOSGeomGetPointN/StartPoint/EndPoint_r`, `GEOSConstrainedDelaunayTriangulation_r`,
+`GEOSGeom_setPrecision_r` — were repaired in /repo by commit 4f07ce3c6 and are now in `sridFromFirstList`.) -/
 def sridNotSyntactic : List String :=
   ["GEOSGeom_clone_r", "GEOSGeom_transformXY_r", "GEOSGeom_transformXYZ_r", "GEOSUnionCascaded_r", "GEOSCoverageSimplifyVW_r",
-   -- FINDINGS on the unchanged tree (the SRID was observed not to arrive, replays in the check's report):
-   "GEOSGeomGetPointN_r", "GEOSGeomGetStartPoint_r", "GEOSGeomGetEndPoint_r",   -- points built by the factory, SRID 0
-   "GEOSConstrainedDelaunayTriangulation_r",                                     -- result built without the SRID
-   "GEOSGeom_setPrecision_r",                                                    -- only the *factory* gets the SRID
    -- operations on arrays of geometries (no single "first argument")
    "GEOSPolygonize_r", "GEOSPolygonize_valid_r", "GEOSPolygonizer_getCutEdges_r"]
 
